@@ -219,8 +219,14 @@ func ZZ_C12_Fold(op1, op2, agg, nargs2 int) {
 	}
 	bd := BlockData{Name: "log_addr", Column: "log_addr"}
 	var argsB [][]byte
+	// nargs2 >= 10: the LAST argument is a 4-byte pattern, not a whole address
+	short := nargs2 >= 10
+	nargs2 %= 10
 	for i := 0; i < nargs2; i++ {
 		b := make([]byte, 20)
+		if short && i == nargs2-1 {
+			b = make([]byte, 4)
+		}
 		for j := range b {
 			b[j] = byte(0x10*(i+1) + j)
 		}
